@@ -18,6 +18,7 @@ R: every variant through the real compiler and VM: its outcome must be one Tengo
 """
 import json
 
+import c06
 import semcmp
 import largelib
 import semlib
@@ -83,6 +84,14 @@ def run(ck):
                 ck.violation("host-down", "variant did not return: %s\n%s" % (real[p["id"]], p["src"]), {"program": p})
                 continue
             if v != "agree":
+                continue
+            # a failing program fails with the same words wherever its variables live (the first line of the error text; the
+            # location lines differ by construction).  Order-dependent programs may fail on another element first.
+            rb, rv = real[base["id"]], real[p["id"]]
+            if (rb.get("k") == rv.get("k") == "runtime_error" and rb.get("kind") == rv.get("kind") and not c06.order_dependent(base)
+                    and (rb.get("msg") or "").split("\n")[0] != (rv.get("msg") or "").split("\n")[0]):
+                ck.violation("placement-message:" + p["variant"], "variant %s fails with other words than the base program: %r vs %r\n--- base\n%s\n--- variant\n%s" % (
+                    p["variant"], (rv.get("msg") or "").split("\n")[0], (rb.get("msg") or "").split("\n")[0], base["src"], p["src"]), {"program": p, "base": base, "real": rv})
                 continue
             rproj = project(p, real[p["id"]])
             if rproj not in base_proj:
